@@ -220,3 +220,45 @@ def unit_cmdrestore(twin=False):
     r.add("reach.RESTORE_with_line_number", DISCHARGED if n >= 2 else UNDECIDED, "symex", 0, "%d paths" % n, kind="vacuity")
     r.assumptions += ["mustfindline returns the line record of that number or reports an error (not under contract)", "GUI parse-only mode is outside the library's behaviour"]
     return r
+
+
+READOUTS = {   # BASIC function -> the engine quantity it reports (PHREEQC-3 manual); (llnl variant, default)
+    "tokdh_a": ("a_llnl", "DH_A"), "tokdh_b": ("b_llnl", "DH_B"), "tokdh_av": (None, "DH_Av"), "tokeps_r": (None, "eps_r"),
+    "tokmu": (None, "mu_x"), "toktc": (None, "tc_x"), "tokqbrn": (None, "QBrn"), "tokcharge_balance": (None, "cb_x"), "tokm": (None, "rate_m"),
+}
+
+
+def unit_scalar_readouts(twin=False):
+    """Scalar read-outs of the BASIC interpreter (PBasic::factor): each function returns the engine quantity of its name
+    (DH_A / DH_B: the LLNL parameters a_llnl / b_llnl when an LLNL temperature grid is loaded, else the Debye-Hueckel A / B)."""
+    import re
+    q = "PBasic::factor"
+    fn = A.find_function(PB, q)
+    r = U.new_unit("C17.factor.scalar_readouts_return_the_quantity_they_name", PB, q, fn, kind="structural")
+    n = 0
+    for tok, (llnl, default) in sorted(READOUTS.items()):
+        body = None
+        for sw in [x for x in A.walk(fn) if x.get("kind") == "SwitchStmt"]:
+            for cst in sw["inner"][-1].get("inner", []):
+                if cst.get("kind") != "CaseStmt":
+                    continue
+                names = [y.get("referencedDecl", {}).get("name") for y in A.walk(cst["inner"][0]) if y.get("kind") == "DeclRefExpr"]
+                if tok in names:
+                    inner = cst["inner"][-1]
+                    while inner.get("kind") == "CaseStmt":
+                        inner = inner["inner"][-1]
+                    t = text_of(PB, inner)
+                    if "n.UU.val=" in t:
+                        body = t
+        if body is None:
+            r.add("%s.case_found" % tok, UNDECIDED, "syntactic", 0, ""); continue
+        n += 1
+        vals = re.findall(r"n\.UU\.val=(?:\(parse_all\)\?[01]:)?PhreeqcPtr->(\w+);", body)
+        want = ([llnl] if llnl else []) + [default]
+        if twin and tok == "tokdh_b":
+            want = ["a_llnl", "DH_B"]
+        ok = vals == want and (not llnl or "PhreeqcPtr->llnl_temp.size()>0" in body)
+        r.add("%s.returns_%s" % (tok, "/".join(want)), DISCHARGED if ok else FAILED, "syntactic", 0, "assigns %r" % (vals,))
+    r.add("reach.readouts", DISCHARGED if n >= 7 else UNDECIDED, "syntactic", 0, "%d" % n, kind="vacuity")
+    r.assumptions += ["the table of names is the specification (manual); text anchors on the case bodies"]
+    return r
